@@ -170,12 +170,11 @@ Theorem pycode_evals_back W o :
 Proof.
   intros Hwf Hg. unfold guard in Hg.
   apply andb_true_iff in Hg as [Hg Hstd]. apply andb_true_iff in Hg as [Hg Hinit]. apply andb_true_iff in Hg as [Hg Hraw].
-  apply andb_true_iff in Hg as [Hg Himp]. apply andb_true_iff in Hg as [Harr Hen].
+  apply andb_true_iff in Hg as [Harr Himp].
   exists (norm W o). split.
   - apply eval_repr_norm; [apply imports_builtins_free; exact Himp|].
     intros u Hu. unfold ok1. repeat split.
     + eapply forallb_In; [exact Hwf|exact Hu].
-    + eapply forallb_In; [exact Hen|exact Hu].
     + eapply forallb_In; [exact Hraw|exact Hu].
     + eapply forallb_In; [exact Hstd|exact Hu].
     + apply imports_resolve; assumption.
@@ -204,7 +203,7 @@ Proof. reflexivity. Qed.
 Lemma heads_EDict kv : heads (EDict kv) = heads_pairs kv.
 Proof. reflexivity. Qed.
 
-Definition gh (u : value) : bool := g_enum_local u && g_std_local u.
+Definition gh (W : world) (u : value) : bool := wf_local W u && g_std_local u.
 
 Definition named (W : world) (v : value) (n : str) : Prop :=
   is_builtin n = true \/ exists u c, In u (subs W v) /\ type_of u = Some c /\ hd [] (snd c) = n.
@@ -213,9 +212,9 @@ Lemma heads_map_EInt l : flat_map heads (map EInt l) = [].
 Proof. induction l; cbn; auto. Qed.
 
 Lemma heads_scalar W v n :
-  is_container v = false -> gh v = true -> In n (heads (repr W v)) -> named W v n.
+  is_container v = false -> gh W v = true -> In n (heads (repr W v)) -> named W v n.
 Proof.
-  intros Hc Hgh Hn. unfold gh in Hgh. apply andb_true_iff in Hgh as [Hen Hstd].
+  intros Hc Hgh Hn. unfold gh in Hgh. apply andb_true_iff in Hgh as [Hwf Hstd].
   assert (Self : forall c, type_of v = Some c -> hd [] (snd c) = n -> named W v n).
   { intros c H1 H2. right. exists v, c. split; [apply subs_self|auto]. }
   destruct v; try discriminate Hc; try discriminate Hstd; cbn [repr] in Hn; try (cbn in Hn; destruct Hn; fail).
@@ -235,8 +234,9 @@ Proof.
   - rewrite heads_ECall in Hn. unfold raw_dq in Hn.
     destruct (dq_safe d); cbn [flat_map heads heads_kws app] in Hn;
       destruct Hn as [<-|[]]; eapply Self; reflexivity.
-  - (* enum *) cbn [g_enum_local] in Hen. destruct c as [md q]. cbn [snd] in *.
-    destruct q as [|x [|y q]]; try discriminate Hen. cbn [last heads] in Hn. destruct Hn as [<-|[]].
+  - (* enum *) destruct c as [md q]. cbn [wf_local snd fst] in Hwf.
+    apply andb_true_iff in Hwf as [Hwf _]. apply andb_true_iff in Hwf as [_ Hq].
+    destruct q as [|x q]; [discriminate Hq|]. cbn [snd app heads] in Hn. destruct Hn as [<-|[]].
     eapply Self; reflexivity.
 Qed.
 
@@ -245,9 +245,9 @@ Lemma named_mono W v v' n :
 Proof. intros Hs [Hb|[u [c [Hu Hc]]]]; [left; exact Hb|right; exists u, c; split; auto]. Qed.
 
 Lemma heads_list W (Q : value -> Prop) l n :
-  Forall (fun x => (forall u, In u (subs W x) -> gh u = true) ->
+  Forall (fun x => (forall u, In u (subs W x) -> gh W u = true) ->
                    forall n, In n (heads (repr W x)) -> named W x n) l ->
-  (forall u, In u (flat_map (subs W) l) -> gh u = true) ->
+  (forall u, In u (flat_map (subs W) l) -> gh W u = true) ->
   In n (flat_map heads (map (repr W) l)) ->
   exists x, In x l /\ named W x n.
 Proof.
@@ -257,7 +257,7 @@ Proof.
 Qed.
 
 Lemma heads_repr W :
-  forall v, (forall u, In u (subs W v) -> gh u = true) ->
+  forall v, (forall u, In u (subs W v) -> gh W u = true) ->
   forall n, In n (heads (repr W v)) -> named W v n.
 Proof.
   induction v using value_ind'; intros Hen n Hn.
@@ -277,7 +277,7 @@ Proof.
         [intros u Hu; apply Hen; cbn; right; exact Hu|exact Hn|].
       eapply named_mono; [|exact Hnm]. intros u Hu. eapply subs_VSet_in; eauto.
   - rewrite repr_VDict, heads_EDict in Hn.
-    assert (Hen' : forall u, In u (subs_pairs W kv) -> gh u = true)
+    assert (Hen' : forall u, In u (subs_pairs W kv) -> gh W u = true)
       by (intros u Hu; apply Hen; rewrite subs_VDict; right; exact Hu).
     assert (X : exists k x, In (k, x) kv /\ (named W k n \/ named W x n)).
     { clear Hen. induction H as [|[k x] r [Hk Hx] Hr IH]; cbn in Hn; [destruct Hn|].
@@ -297,7 +297,7 @@ Proof.
     apply in_app_or in Hn as [Hn|Hn].
     + right. exists (VObj c fs), c. split; [apply subs_self|]. split; [reflexivity|].
       destruct (snd c) as [|x q]; [destruct Hn|]. destruct Hn as [<-|[]]. reflexivity.
-    + assert (Hen' : forall u, In u (subs_fields W fds fs) -> gh u = true)
+    + assert (Hen' : forall u, In u (subs_fields W fds fs) -> gh W u = true)
         by (intros u Hu; apply Hen; rewrite subs_VObj, Ef; right; exact Hu).
       assert (X : exists u c0, In u (subs_fields W fds fs) /\ type_of u = Some c0 /\ hd [] (snd c0) = n
                   \/ is_builtin n = true).
@@ -318,13 +318,13 @@ Proof.
 Qed.
 
 Theorem imports_sufficient W o :
-  wf W o = true -> g_enum W o = true -> g_std W o = true ->
+  wf W o = true -> g_std W o = true ->
   forall n, In n (heads (repr W o)) ->
   is_builtin n = true \/ exists m, In (m, n) (imports W o).
 Proof.
-  intros Hwf Hen Hstd n Hn.
-  assert (Hgh : forall u, In u (subs W o) -> gh u = true).
-  { intros u Hu. unfold gh. rewrite (forallb_In _ _ _ Hen Hu), (forallb_In _ _ _ Hstd Hu). reflexivity. }
+  intros Hwf Hstd n Hn.
+  assert (Hgh : forall u, In u (subs W o) -> gh W u = true).
+  { intros u Hu. unfold gh. rewrite (forallb_In _ _ _ Hwf Hu), (forallb_In _ _ _ Hstd Hu). reflexivity. }
   destruct (heads_repr W o Hgh n Hn) as [Hb|[u [c [Hu [Hc Hh]]]]];
     [left; exact Hb|].
   right. exists (fst c). unfold imports. apply sort_lines_in_rev; [apply pairs_ns; exact Hwf|].
